@@ -322,6 +322,53 @@ func c07(p *core.Program, r *core.Report) {
 		return false, ""
 	})
 
+	// ---- rule 3b: the first element of a decoded array is read only where the array is known to be non-empty
+	const r3b = "first-element-guarded"
+	r.Rule(r3b, "in package geojson every read of element 0 of a slice (x[0], also of a nested slice x[0][0]) is unreachable once the CFG edges that imply len(x) > 0 are deleted: the arrays come from the document, `[]` and `null` are valid JSON at every nesting level, and an unguarded x[0] turns them into an index-out-of-range panic instead of a decoded (empty) geometry or an error", 1)
+	{
+		for _, fn := range pkgFuncs(p, rel) {
+			n := 0
+			for _, b := range fn.Blocks {
+				for _, in := range b.Instrs {
+					var x, idx ssa.Value
+					switch v := in.(type) {
+					case *ssa.IndexAddr:
+						x, idx = v.X, v.Index
+					case *ssa.Index:
+						x, idx = v.X, v.Index
+					default:
+						continue
+					}
+					if _, isSlice := x.Type().Underlying().(*types.Slice); !isSlice {
+						continue
+					}
+					if k, isC := eng.ConstInt(idx); !isC || k != 0 {
+						continue
+					}
+					if _, isC := idx.(*ssa.Const); !isC {
+						continue
+					}
+					n++
+					key := fmt.Sprintf("%s/first-element#%d", short(fn), n)
+					edges := eng.NonEmptyEdges(fn, x)
+					ok := len(edges) > 0 && !eng.ReachableCorr(fn.Blocks[0], edges)[b]
+					// a slice built in this function with a constant non-zero length
+					if mk, isMk := x.(*ssa.MakeSlice); isMk && !ok {
+						if l, isC := eng.ConstInt(mk.Len); isC && l > 0 {
+							ok = true
+						}
+					}
+					if sl, isSl := x.(*ssa.Slice); isSl && !ok {
+						if _, isArr := sl.X.Type().Underlying().(*types.Pointer); isArr && sl.Low == nil && sl.High == nil {
+							ok = true // a whole array
+						}
+					}
+					r.Check(ok, r3b, key, p.Pos(in.Pos()), true, "reached only where len > 0 is known", "element 0 of "+x.Name()+" is read at "+p.Pos(in.Pos())+" on a path that does not establish that the slice is non-empty: an empty array at this nesting level of the document (`[[[]]]`) panics with index out of range")
+				}
+			}
+		}
+	}
+
 	// ---- rule 4: no nil member can enter a decoded collection
 	const r4 = "no-nil-members"
 	r.Rule(r4, "every call of (*Geometry).Decode whose result can reach GeometryCollection.Push has a receiver that cannot be nil (the address of a local or element value): Decode returns (nil, nil) for a nil receiver, and a nil member makes Layout/Bounds/Empty/Marshal panic later", 1)
